@@ -526,4 +526,4 @@ def run(ctx):
     generated(ctx, its, full="K4" in cfgs)
     if "K4" not in cfgs:
         ctx.note("quick tier: generated-code rules ran on the library's own fdo interfaces only (K1); the test "
-                 "fixtures (K4) are analysed in the thorough tier or with ZCHECK_K4=1")
+                 "fixtures (K4) are analysed in the thorough tier or with ZCHECK_K4=1; the fixture crate K6 is part of both tiers")
